@@ -28,13 +28,54 @@ fn fail(msg: &str) -> RuntimeResult<VmInt, String> {
     RuntimeResult::Panic(msg.to_string())
 }
 
+/// Host events the simulator fires: `sim.wait k` is pending until event `k` was fired
+static EVENTS: std::sync::Mutex<std::collections::BTreeMap<VmInt, (bool, Vec<std::task::Waker>)>> =
+    std::sync::Mutex::new(std::collections::BTreeMap::new());
+
+pub fn reset_events() {
+    EVENTS.lock().unwrap_or_else(|e| e.into_inner()).clear();
+}
+
+pub fn fire(k: VmInt) {
+    let wakers = {
+        let mut ev = EVENTS.lock().unwrap_or_else(|e| e.into_inner());
+        let e = ev.entry(k).or_insert((false, Vec::new()));
+        e.0 = true;
+        std::mem::take(&mut e.1)
+    };
+    for w in wakers {
+        w.wake();
+    }
+}
+
+struct WaitFuture(VmInt);
+
+impl std::future::Future for WaitFuture {
+    type Output = VmInt;
+    fn poll(self: std::pin::Pin<&mut Self>, cx: &mut std::task::Context<'_>) -> std::task::Poll<VmInt> {
+        let mut ev = EVENTS.lock().unwrap_or_else(|e| e.into_inner());
+        let e = ev.entry(self.0).or_insert((false, Vec::new()));
+        if e.0 {
+            std::task::Poll::Ready(self.0)
+        } else {
+            e.1.push(cx.waker().clone());
+            std::task::Poll::Pending
+        }
+    }
+}
+
+async fn wait(k: VmInt) -> VmInt {
+    WaitFuture(k).await
+}
+
 fn load(thread: &Thread) -> vm::Result<ExternModule> {
     ExternModule::new(
         thread,
         record! {
             obs => primitive!(2, obs),
             tick => primitive!(1, tick),
-            fail => primitive!(1, fail)
+            fail => primitive!(1, fail),
+            wait => primitive!(1, "sim.wait", async fn wait)
         },
     )
 }
